@@ -6,9 +6,16 @@ The writer part of C09 uses the `c12.trace` / `c12.traceu` commands of Hts.Drv.C
       members: comma separated  <compressed size>:<payload size>
       sequential read of the whole file through a source that fails from byte offset <cut> on:
       `n=<payload bytes delivered> end=<eof|err>`
+  c09.hist <blocks> <oracle> <ops>
+      blocks, ops as in c02.run; oracle: one letter per load attempt after NewReader, in program order:
+      o (no fault) | x (the load fails: error, error after partial data, truncation inside the member)
+      | e (the source reports a clean end of input at the member start); "-" = no faults.
+      The operational model `Hts.Model.Bgzf.FReader` (rd = 1 path); answer as c02.run, plus `|<loads used>|<class of Close()>`.
 -/
 import Hts.Drv.Util
 import Hts.Model.ReaderFaults
+import Hts.Model.BgzfReaderFaults
+import Hts.Drv.C02
 namespace Hts.Drv.C09
 open Hts.Drv Hts.Model.ReaderFaults
 
@@ -16,6 +23,14 @@ def parseMember (s : String) : Option (Nat × Nat) :=
   match s.splitOn ":" with
   | [c, n] => do some (← parseNat c, ← parseNat n)
   | _ => none
+
+def parseOracle (s : String) : Option (List Hts.Model.Bgzf.LoadFault) :=
+  if s == "-" then some []
+  else s.toList.mapM fun c =>
+    if c == 'o' then some Hts.Model.Bgzf.LoadFault.ok
+    else if c == 'x' then some Hts.Model.Bgzf.LoadFault.err
+    else if c == 'e' then some Hts.Model.Bgzf.LoadFault.eof
+    else none
 
 def handle (cmd : String) (args : List String) : Option String :=
   match cmd, args with
@@ -25,6 +40,21 @@ def handle (cmd : String) (args : List String) : Option String :=
     let cut ← if cut == "-" then some none else (parseNat cut).map some
     let r := readAllLen cut kind 0 ms
     some s!"n={r.1} end={if r.2 == End.eof then "eof" else "err"}"
+  | "c09.hist", [blocks, oracle, ops] => do
+    let f ← Hts.Drv.C02.parseFile blocks
+    let ops ← Hts.Drv.C02.parseOps ops
+    let orc ← parseOracle oracle
+    match Hts.Model.Bgzf.Reader.new f with
+    | .error e => some ("new:" ++ Hts.Drv.C02.errClass (some e))
+    | .ok r =>
+      let run := (Hts.Model.Bgzf.FReader.mk r orc).run ops
+      let last := match run.getLast? with
+        | some (_, x) => x
+        | none => Hts.Model.Bgzf.FReader.mk r orc
+      let used := orc.length - last.oracle.length
+      some (";".intercalate (run.map fun (o, x) =>
+        Hts.Drv.C02.showRes o.bytes o.err x.r.lastChunk x.r.blockLen) ++
+        s!"|{used}|{Hts.Drv.C02.errClass last.close}")
   | _, _ => none
 
 end Hts.Drv.C09
